@@ -1217,5 +1217,146 @@ theorem initState_xinv {trace : List TraceLine} {delay lim : Nat} {a : Args} {or
     rw [this, tcount_congr _ hs1 hs2, pushAll_tcount, tcount_empty, init_budget]
     simp
 
+/-! ### the final state and the counts of the stream -/
+
+theorem tcount_zero_of_all {P : SimEvent → Bool} {sq : SimQueue}
+    (h : ∀ c qi, ∀ e ∈ ((sq.side c).heap qi).data, P e = false) : tcount P sq = 0 := by
+  have z : ∀ c qi, ((sq.side c).heap qi).data.countP P = 0 := by
+    intro c qi
+    rw [List.countP_eq_zero]
+    intro e he
+    simp [h c qi e he]
+  have a1 := z true .base
+  have a2 := z true .blocking
+  have a3 := z true .bypassable
+  have a4 := z true .internal
+  have a5 := z false .base
+  have a6 := z false .blocking
+  have a7 := z false .bypassable
+  have a8 := z false .internal
+  simp only [EventQueue.heap, SimQueue.side, if_true, Bool.false_eq_true, if_false] at a1 a2 a3 a4 a5 a6 a7 a8
+  unfold tcount qcount
+  omega
+
+/-- when all normal packets are processed the queues hold no NormalSent, no TunnelSent and no
+    TunnelRecv -/
+theorem noNormal_no_packets {sq : SimQueue} (hw : sq.WF) (h : sq.noNormalPackets = true) :
+    ∀ c qi, ∀ e ∈ ((sq.side c).heap qi).data, isNS e = false ∧ isTS e = false ∧ (e.event == .tunnelRecv) = false := by
+  have key : ∀ (q : EventQueue) (c' : Bool), q.WF c' → q.noNormalPackets = true →
+      ∀ qi, ∀ e ∈ (q.heap qi).data, isNS e = false ∧ isTS e = false ∧ (e.event == .tunnelRecv) = false := by
+    intro q c' hq hn qi e he
+    unfold EventQueue.noNormalPackets at hn
+    simp only [Bool.and_eq_true] at hn
+    obtain ⟨⟨⟨hb, hbl⟩, hby⟩, hin⟩ := hn
+    cases qi with
+    | base =>
+      have h1 : q.base.data = [] := by simpa [Heap.isEmpty] using hb
+      simp only [EventQueue.heap] at he
+      rw [h1] at he; cases he
+    | blocking =>
+      simp only [EventQueue.heap] at he
+      have hall := List.all_eq_true.1 hbl e he
+      have hts : isTS e = true := by
+        have := List.countP_eq_zero.1 hq.blocking e he
+        simp at this; exact this.1.1
+      simp [isTS] at hts
+      simp [hts] at hall
+    | bypassable =>
+      simp only [EventQueue.heap] at he
+      have hall := List.all_eq_true.1 hby e he
+      have hts : isTS e = true := by
+        have := List.countP_eq_zero.1 hq.bypassable e he
+        simp at this; exact this.1.1
+      simp [isTS] at hts
+      simp [hts] at hall
+    | internal =>
+      simp only [EventQueue.heap] at he
+      have hall := List.all_eq_true.1 hin e he
+      have := List.countP_eq_zero.1 hq.internal e he
+      simp at this
+      simp at hall
+      refine ⟨this.1.2, this.1.1, ?_⟩
+      simp [hall.1]
+  unfold SimQueue.noNormalPackets at h
+  simp only [Bool.and_eq_true] at h
+  intro c
+  cases c
+  · exact key sq.server false hw.server h.2
+  · exact key sq.client true hw.client h.1
+
+/-- TunnelSent of side `c` with time in `p` -/
+def tsQ (c : Bool) (p : Int → Bool) (e : SimEvent) : Bool := (e.client == c) && isTS e && p e.time
+/-- TunnelRecv at the other side of `c` with time in `p` -/
+def trQ (c : Bool) (p : Int → Bool) (e : SimEvent) : Bool := (e.client == !c) && (e.event == .tunnelRecv) && p e.time
+/-- a packet of side `c` on its way whose arrival time at the other side is in `p` -/
+def trP (delay : Nat) (c : Bool) (p : Int → Bool) (e : SimEvent) : Bool :=
+  sendPend c (fun x => p (x + delay)) e || trQ c p e
+
+theorem hPQ_ts (delay : Nat) (c : Bool) (p : Int → Bool) (e : SimEvent) (_ : pktOK e = true) :
+    (succL delay e).countP (sendPend c p) + b2n (tsQ c p e) = b2n (sendPend c p e) := by
+  unfold succL
+  cases hev : e.event <;> cases hc : (e.client == c) <;> cases hp : p e.time <;>
+    simp [sendPend, tsQ, isNS, isTS, hev, hc, hp, b2n, List.countP_cons]
+
+theorem hPQ_tr (delay : Nat) (c : Bool) (p : Int → Bool) (e : SimEvent) (_ : pktOK e = true) :
+    (succL delay e).countP (trP delay c p) + b2n (trQ c p e) = b2n (trP delay c p e) := by
+  unfold succL
+  cases hev : e.event <;> cases c <;> cases hc : e.client <;> cases hp : p e.time <;>
+    cases hp2 : p (e.time + delay) <;>
+    simp [trP, sendPend, trQ, isNS, isTS, hev, hc, hp, hp2, b2n, List.countP_cons]
+
+/-- **The stream of an exact run.**  A run without machines on a parsed trace (network without an
+    explicit packets-per-second limit, times within `Duration::MAX`), whose trace-derived limit
+    covers every one-second window (`hstat`), that ended because all normal packets were
+    processed: for every side `c` and every set of times `p`, the TunnelSent events of side `c`
+    with time in `p` are as many as the side's send times in `p`, and the TunnelRecv events at the
+    other side with time in `p` are as many as the send times `x` with `x + delay` in `p`. -/
+theorem sim_exact_counts (budget : Nat) (trace : List TraceLine) (delay lim : Nat) (a : Args) (orc : σ)
+    (hnet : a.network = ⟨delay, none⟩) (hlim : (parseTrace trace delay).maxPps = some lim)
+    (hB : ∀ l ∈ trace, ((l.1 : Nat) : Int) + 2 * (delay : Int) ≤ durMax)
+    (hstat : ∀ c t, t ∈ Lof trace delay c →
+      (Lof trace delay c).countP (fun x => decide (x ≤ t) && inWin Gen.SIM_BOTTLENECK_WINDOW_NS t x) ≤ lim)
+    (hstop : (simAdvanced ρ budget [] [] (parseTrace trace delay) a orc).stop = .noNormal) (c : Bool) (p : Int → Bool) :
+    (simAdvanced ρ budget [] [] (parseTrace trace delay) a orc).stream.countP (fun r => tsQ c p r.ev) =
+      (Lof trace delay c).countP p ∧
+    (simAdvanced ρ budget [] [] (parseTrace trace delay) a orc).stream.countP (fun r => trQ c p r.ev) =
+      (Lof trace delay c).countP (fun x => p (x + delay)) := by
+  unfold simAdvanced at hstop ⊢
+  cases hi : initState ρ [] [] (parseTrace trace delay) a orc with
+  | error f => simp [hi] at hstop
+  | ok st =>
+    simp only [hi] at hstop ⊢
+    rw [finish_stop] at hstop
+    rw [finish_stream]
+    obtain ⟨hx, hsq, _⟩ := initState_xinv ρ hnet hlim hB hi
+    obtain ⟨stf, hfin, hnn⟩ := loop_noNormal ρ a _ st 0 0 hstop
+    obtain ⟨hs1, hs2⟩ := parseTrace_sides trace delay
+    constructor
+    · obtain ⟨hxf, hc⟩ := loop_exact ρ hstat a (sendPend c p) (tsQ c p) (hPQ_ts delay c p) _ st 0 0 hx stf hfin
+      have hz : tcount (sendPend c p) stf.sq = 0 := by
+        apply tcount_zero_of_all
+        intro c' qi e he
+        obtain ⟨n1, n2, _⟩ := noNormal_no_packets hxf.wf hnn c' qi e he
+        simp [sendPend, n1, n2]
+      rw [hz, hsq, tcount_congr _ hs1 hs2, pushAll_tcount, tcount_empty, init_budget] at hc
+      omega
+    · obtain ⟨hxf, hc⟩ := loop_exact ρ hstat a (trP delay c p) (trQ c p) (hPQ_tr delay c p) _ st 0 0 hx stf hfin
+      have hz : tcount (trP delay c p) stf.sq = 0 := by
+        apply tcount_zero_of_all
+        intro c' qi e he
+        obtain ⟨n1, n2, n3⟩ := noNormal_no_packets hxf.wf hnn c' qi e he
+        simp [trP, sendPend, trQ, n1, n2, n3]
+      have hcongr : (trace.map (nsOf delay)).countP (trP delay c p) =
+          (trace.map (nsOf delay)).countP (sendPend c (fun x => p (x + delay))) := by
+        apply List.countP_congr
+        intro e he
+        simp only [List.mem_map] at he
+        obtain ⟨l, _, hl⟩ := he
+        subst hl
+        unfold nsOf
+        cases l.2 <;> simp [trP, trQ]
+      rw [hz, hsq, tcount_congr _ hs1 hs2, pushAll_tcount, tcount_empty, hcongr, init_budget] at hc
+      omega
+
 end
 end Mb.Sim
